@@ -434,12 +434,16 @@ impl Matcher {
             .get(&tx.ticker)
             .map(|p| p.quantity)
             .unwrap_or(Decimal::ZERO);
-        let total_held = ledger_held + pool_held;
+        // Shares sold earlier and identified with purchases still to come are no longer held,
+        // although the pool still carries them until that purchase arrives.
+        let already_sold =
+            bed_and_breakfast::outstanding_bnb_claims(tx, all_transactions, future_consumption);
+        let total_held = ledger_held + pool_held - already_sold;
         if *amount > total_held {
             return Err(CgtError::InvalidTransaction(format!(
                 "SELL {} on {}: disposal of {} shares exceeds holding of {} \
-                 (same-day ledger: {}, S104 pool: {})",
-                tx.ticker, tx.date, amount, total_held, ledger_held, pool_held
+                 (same-day ledger: {}, S104 pool: {}, already sold against later purchases: {})",
+                tx.ticker, tx.date, amount, total_held, ledger_held, pool_held, already_sold
             )));
         }
 
